@@ -149,7 +149,7 @@ func TestC14(t *testing.T) {
 		{name: "same-value-burst", clients: 8, perCli: 2, names: []string{"a"}, sameVal: true,
 			kinds: map[ops.Kind]int{ops.Put: 10, ops.Info: 1}},
 	}
-	nDB, nHTTP := r.N(600, 20000), r.N(150, 3000)
+	nDB, nHTTP := r.N(1500, 20000), r.N(400, 4000)
 	var wg sync.WaitGroup
 	jobs := make(chan int)
 	// histories are produced one at a time per worker; each history itself uses several goroutines
